@@ -27,6 +27,10 @@ Judge(c, s, e) ==
                s.cls \o (IF e.k > Len(s.pts) THEN "/k>n" ELSE ""), "", s)
     [] e.op = "radius" ->
          Check(<< << e.exc = "", "query_succeeds" >>, << RadiusOk(s.pts, e.q, e.m, e.ret), "radius_query_returns_exactly_the_points_within" >> >>, s.cls, "", s)
+    [] e.op = "radius_int" ->     \* integer radius e.r: the sphere itself belongs to the ball
+         Check(<< << e.exc = "", "query_succeeds" >>,
+                  << { e.ret[j] : j \in 1..Len(e.ret) } = { i \in 0..(Len(s.pts) - 1) : D2(s.pts, i, e.q) <= e.r * e.r }
+                     /\ Len(e.ret) = Cardinality({ e.ret[j] : j \in 1..Len(e.ret) }), "radius_query_returns_exactly_the_points_within" >> >>, s.cls \o "/on_the_sphere", "", s)
     [] OTHER -> Bad("unknown_operation", e.op, "", s)
 W0 == INSTANCE Walker
 Spec == W0!Spec
